@@ -25,6 +25,16 @@ NPOOL = 12
 GOOD = ['A', 'B', 'C', 'sec', 'figures', 'conf.py', 'conf', '.static', '.templates', 'Index', 'index.rst',
         'A.rst', 'x y', 'été', 'a.b', '.hidden', 'plot', 'valjean.css', 'stdout', '...', '-', 'a\\b']
 BAD = ['', '.', '..', 'a/b', '/abs', 'nu\0l', 'x/']
+# titles that differ from another title (or from a reserved name) only by something a helper or a file
+# system might normalise away: surrounding whitespace, trailing dots, unicode-equivalent forms
+GOOD += ['A ', ' A', 'B ', ' index', 'index ', 'index.', 'A.', 'conf.py ', ' figures', 'e\u0301te\u0301', 'sec  ']
+
+
+def variants(title):
+    import unicodedata
+    out = [title + ' ', ' ' + title, title + '.', title + '  ', '  ' + title + ' ', title.strip(),
+           title.rstrip('. '), unicodedata.normalize('NFD', title), unicodedata.normalize('NFC', title)]
+    return [v for v in out if v != title and usable(v)]
 
 
 def usable(title):
@@ -56,7 +66,8 @@ class Pool:
             ds2 = Dataset(np.array([float(i), 2.5 if i % 2 else 2.0]), np.array([0.1, 0.1]), bins=bins,
                           name=f'e{i}')
             cls = TestStudent if i % 4 == 1 else TestEqual
-            res = cls(ds1, ds2, name=f'test{i}', description=f'description {i}').evaluate()
+            # results i, i+4, i+8 are distinct (data, description, fingerprint) but their tests share a name
+            res = cls(ds1, ds2, name=f'test{i % 4}', description=f'description {i}').evaluate()
             self.results.append(res)
             self.fps.append(fingerprint(res.test))
         assert len(set(self.fps)) == NPOOL
@@ -122,6 +133,21 @@ def gen_tree(rng, max_depth, flaw, pool=None):
         deep = [n for d, n in nodes if d >= 2]
         if deep:
             rng.choice(deep)[0] = 'index'
+    elif flaw == 'variant-sibling':
+        # a sibling whose title differs only by whitespace / trailing dot / unicode form: two sections, two pages
+        cands = [n for _, n in nodes if n[2]] + ([root] if root[2] else [])
+        if cands:
+            par = rng.choice(cands)
+            kid = rng.choice(par[2])
+            vs = [v for v in variants(kid[0]) if v not in [k[0] for k in par[2]]]
+            if vs:
+                par[2].insert(rng.randrange(len(par[2]) + 1), [rng.choice(vs), results(), []])
+    elif flaw == 'variant-index':
+        have = [k[0] for k in root[2]]
+        vs = [v for v in (' index', 'index ', 'index.', ' index ', 'Index', 'index  ') if v not in have]
+        root[2].insert(rng.randrange(len(root[2]) + 1), [rng.choice(vs), results() or [rng.randrange(NPOOL)], []])
+        if not root[1]:
+            root[1] = [rng.randrange(NPOOL)]
     elif flaw == 'static-css':
         sub = [['valjean.css', results(), [[rng.choice(GOOD), results(), []]] if rng.random() < 0.8 else []]]
         root[2] = [k for k in root[2] if k[0] != '.static'] + [['.static', results(), sub]]
@@ -174,6 +200,14 @@ def gen_cases(ctx, pool):
         ['M', [0], [['figures', [], [[f'plot_{pool.plot_fps[0][0]}.png', [], [leaf('x', [1])]]]]]],
         ['M', [], [['figures', [], [[f'plot_{pool.plot_fps[0][0]}.png', [], [leaf('x', [1])]]]]]],
         ['M', [0], [['figures', [], [leaf(f'plot_{pool.plot_fps[0][0]}.png', [1])]]]],
+        # titles equal up to whitespace / dots / unicode form are different sections with different pages
+        ['M', [0], [leaf(' index', [1]), leaf('index ', [2]), leaf('index.', [3])]],
+        ['M', [], [['a', [], [['b', [], [['c', [], [leaf('TRIPOLI-4', [1, 5]), leaf('TRIPOLI-4 ', [2, 9])]]]]]]]],
+        ['M', [0], [leaf('A', [1]), leaf('A ', [2]), leaf(' A', [3]), leaf('A.', [4]), ['A  ', [], [leaf('x', [5])]]]],
+        ['M', [0], [leaf('\u00e9t\u00e9', [1]), leaf('e\u0301te\u0301', [2])]],
+        # distinct results whose tests have the same name: same page, cousin sections
+        ['M', [0, 4, 8], [['TRIPOLI-4', [], [leaf('keff', [1, 5])]], ['MCNP', [], [leaf('keff', [9, 1])]]]],
+        ['M', [], [leaf('A', [2, 6, 10]), leaf('B', [6, 2])]],
     ]
     ctx.count('corpus', len(cases))
     nrand = 420 if quick else 6000
@@ -194,6 +228,10 @@ def gen_cases(ctx, pool):
             flaw = 'static-css'
         elif r < 0.39:
             flaw = 'figure-dir'
+        elif r < 0.51:
+            flaw = 'variant-sibling'
+        elif r < 0.56:
+            flaw = 'variant-index'
         cases.append(gen_tree(rng, rng.choice([1, 2, 3, 4, 4, 4]), flaw, pool))
     ctx.count('random', nrand)
     return cases
@@ -221,6 +259,7 @@ def parse_page(text, pool):
                for fp in re.findall(r'^\.\. _anchor_([0-9a-f]+):$', text, re.M)]
     images = [pool.plot_id.get(fp, 'unknown-' + fp[:8])
               for fp in re.findall(r'^\.\. image:: /figures/plot_(\w+)\.png$', text, re.M)]
+    descr = [int(n) for n in re.findall(r'^description (\d+)$', text, re.M)]
     toc = []
     lines = text.split('\n')
     k = 0
@@ -236,7 +275,7 @@ def parse_page(text, pool):
                 k += 1
         else:
             k += 1
-    return anchors, toc, images
+    return anchors, toc, images, lines[0], descr
 
 
 def run_case(tree, wdir, pool, TestReport):
@@ -323,12 +362,18 @@ def oracle(ctx, tree, obs, pool):
         nres += sum(len(n[1]) for _, n in lst)
         if doc not in pages:
             continue
-        anchors, toc, images = pages[doc]
+        anchors, toc, images, title_line, descr = pages[doc]
         if len(lst) > 1:
             fail(f'page {doc} is shared by {len(lst)} sections', 'page-shared')
             continue
+        if '\n' not in node[0] and title_line != node[0]:
+            fail(f'page {doc!r} starts with the title {title_line!r}, its section is titled {node[0]!r}',
+                 'title-on-page')
         if anchors != node[1]:
             fail(f'page {doc}: anchors of results {anchors}, the section holds {node[1]}', 'anchors-on-page')
+        # every result is identified by its own description text: once, here, in order
+        if descr != node[1]:
+            fail(f'page {doc}: descriptions of results {descr}, the section holds {node[1]}', 'results-on-page')
         # table of contents: every entry resolves to a written page, namely the sub-sections' pages in order
         resolved = [posixpath.normpath(posixpath.join(posixpath.dirname(doc), entry)) for entry in toc]
         for entry, target in zip(toc, resolved):
@@ -345,6 +390,12 @@ def oracle(ctx, tree, obs, pool):
     total = sum(len(p[0]) for p in pages.values())
     if total != nres:
         fail(f'{total} anchors written for {nres} results', 'anchor-count')
+    # every plot of every result of the tree has its file
+    for _, node in sections(tree):
+        for i in node[1]:
+            for img in pool.images[i]:
+                if img not in obs['figs']:
+                    fail(f'the plot {img} of result {i} has no file in figures/', 'figure-of-result-missing')
 
 
 # --------------------------------------------------------------------------
@@ -368,7 +419,7 @@ def coq_obs(obs):
     if obs['raised']:
         return '(ORaised ' + clist([coq_path(f) for f in obs['files']]) + ')'
     pages = []
-    for doc, (anchors, toc, images) in obs['pages'].items():
+    for doc, (anchors, toc, images, _title, _descr) in obs['pages'].items():
         pages.append('(mk_page ' + coq_path(doc) + ' ' + clist([cn(a) for a in anchors]) + ' '
                      + clist([coq_path(e) for e in toc]) + ' ' + clist([cstr(i) for i in images]) + ')')
     return ('(OWritten ' + clist(pages) + ' ' + clist([cstr(f) for f in obs['figs']]) + ' '
@@ -393,7 +444,9 @@ def run(ctx):
                 '(depth <= 5 levels, 0-4 children, titles from an alphabet with index, figures, conf.py, .static, '
                 'x.rst ...; flaws injected at controlled rates: invalid title 8%, duplicate siblings 8%, top-level '
                 'index 5%, nested index 5%, six levels 7%, sub-sections below .static/valjean.css 3% and below '
-                'figures/plot_<fingerprint>.png 3%), results from a pool of 12 real TestEqual/TestStudent '
+                'figures/plot_<fingerprint>.png 3%, a sibling / a top-level title that differs from another title / '
+                'from index only by whitespace, trailing dots or unicode form 12% / 5% (valid: two pages)), results '
+                'i, i+4, i+8 of the pool share their test name, results from a pool of 12 real TestEqual/TestStudent '
                 'results with distinct fingerprints, 8 of them with a plot; non-trivial = written with >= 3 pages '
                 'or rejected; distinct by tree')
     cases = gen_cases(ctx, pool)
